@@ -224,6 +224,7 @@ func c07Fresh(ctx *Ctx, c c07Case, run string) c07Out {
 // tool-c07seq: executes a list of cases in THIS process, one after the other (child of the C07 runner).
 type c07SeqFile struct {
 	Pkglint string    `json:"pkglint"` // argv[0], the same string the fresh runs use
+	SameG   bool      `json:"same_g"`  // all steps on ONE G (VerifRunMainSameG), the first one on a new G
 	Steps   []c07Case `json:"steps"`
 	Results []c07Out  `json:"results"`
 }
@@ -246,7 +247,13 @@ func c07RunSeqHere(file string) error {
 				return err
 			}
 		}
-		o := c07InProcess(sf.Pkglint, filepath.Join(root, c.Cwd), c.Args)
+		var o c07Out
+		if sf.SameG {
+			r := pkglint.VerifRunMainSameG(append([]string{sf.Pkglint}, c.Args...), filepath.Join(root, c.Cwd), i == 0)
+			o = c07Out{Stdout: r.Stdout, Stderr: r.Stderr, Exit: r.Exit, Panic: r.Panic, MapSizes: r.MapSizes}
+		} else {
+			o = c07InProcess(sf.Pkglint, filepath.Join(root, c.Cwd), c.Args)
+		}
 		if c.Autofix {
 			o.TreeSum = c07TreeSum(root)
 			os.RemoveAll(root)
@@ -259,8 +266,13 @@ func c07RunSeqHere(file string) error {
 
 // c07Seq runs the steps in one fresh child process of the harness (tag verif) and returns one result per step.
 func c07Seq(ctx *Ctx, name string, steps []c07Case) ([]c07Out, error) {
+	return c07SeqG(ctx, name, steps, false)
+}
+
+// c07SeqG: sameG = all steps on one G (see shim VerifRunMainSameG).
+func c07SeqG(ctx *Ctx, name string, steps []c07Case, sameG bool) ([]c07Out, error) {
 	file := filepath.Join(ctx.Work, name+".json")
-	data, _ := json.Marshal(c07SeqFile{Pkglint: ctx.Pkglint, Steps: steps})
+	data, _ := json.Marshal(c07SeqFile{Pkglint: ctx.Pkglint, Steps: steps, SameG: sameG})
 	if err := os.WriteFile(file, data, 0o644); err != nil {
 		return nil, err
 	}
@@ -739,6 +751,9 @@ func runC07(ctx *Ctx) *Result {
 	if res.Broken == "" {
 		c07EnvStage(ctx, res, rng.Fork())
 	}
+	if res.Broken == "" {
+		c07SameGStage(ctx, res)
+	}
 	res.DistinctNontrivial = len(nontrivial)
 	res.Rule = fmt.Sprintf("a case = (generated tree, cwd, argv); every case is run %d times in fresh processes and %d times inside child processes that run a seeded permutation of the cases of %d trees each (fresh G per run), all outputs compared byte for byte with the first fresh run. Non-trivial = a case for which the shim's probe saw at least 2 of the long-lived audited maps (master sites, tools, doc/CHANGES entries, user-defined variables) with >= 3 keys; the per-package maps (PLIST files/dirs, includes, options, SUBST, scopes) have >= 3 keys in every Rich tree by construction. Go draws a fresh random start for every `range`; for a loop over >= 3 keys whose order reaches the output, k independent runs all agree with probability <= (1/3)^(k-1) (only the first key matters) resp. (1/6)^(k-1) (the whole order of 3 keys matters): with %d runs per case that is <= %.1e per case, and every audited loop is reached by dozens of cases.",
 		p.nFresh, p.nSeq, p.batch, p.nFresh+p.nSeq, pow(1.0/3, p.nFresh+p.nSeq-1))
@@ -1088,6 +1103,8 @@ func replayC07(ctx *Ctx, rep map[string]any) *Result {
 				break
 			}
 		}
+	case "same-g":
+		return replayC07SameG(ctx, rep)
 	case "history":
 		var cases []c07Case
 		var idx []int
